@@ -400,6 +400,10 @@ class SchemaGroup(SchemaSet):
         tag_order = {f.tag: i for i, f in enumerate(self.members.values())}
         tag_fields = {f.tag: f for f in self.members.values()}
 
+        if not groups:
+            # NumInGroup is positive: a group without items is no group
+            raise FIXMessageError(f"fixmessage={groups} has no items {self}")
+
         for fmsg in groups:
             has_first_tag = False
             prev_tag = -1
